@@ -10,12 +10,15 @@ MODELLED_FUNCS = {'sugar/core/fts.py': [
     'LocationTuple.__new__', 'LocationTuple.range', 'LocationTuple.__lt__', 'LocationTuple.__le__', 'LocationTuple.__gt__',
     'LocationTuple.__ge__', 'LocationTuple.overlaps', 'LocationTuple._reverse',
     'Feature.__init__', 'Feature.locs', 'Feature.loc', 'Feature.__len__', 'Feature.overlaps', 'Feature.rc',
-    'FeatureList.loc_range', 'FeatureList.slice', 'FeatureList.rc']}
+    'Feature.__lt__', 'FeatureList.loc_range', 'FeatureList.slice', 'FeatureList.rc', 'FeatureList.sort']}
 STRANDS = '+-.?'
 RULE = ('four case kinds: (h) a FeatureList built through the public constructors (features may share Location objects) followed by a '
         'history of slice / rc / Feature.rc / locs-setter / locs-sharing operations and of queries (slice observed without replacing the '
         'list, optionally mutating the RESULT; comparisons between features); the state after every step, every query, the final features '
         'and loc_range are compared, every slice is repeated, operands and every LocationTuple handed out earlier must stay unchanged; '
+        'FeatureList.sort()/sorted() against the order of the covered ranges and the comparison operators; metadata keys set to None after '
+        'construction (feature level and per location) must survive every operation, results that render like the operand must be == to it, '
+        'slice(a,b,rel=a).rc(b-a) is cross-checked against seq.sl(update_fts=True)[minus-strand Location]; '
         '(rr) rc twice; (cmp) <,<=,>,>=,overlaps,range of two LocationTuples; (api) argument checking of constructors and comparisons. '
         'Exhaustive box: every pair of intervals x strand x window (bounds None or 0..N, including empty and inverted windows), N=3 quick '
         '(half sampled) / N=5 thorough, defect bits and rel drawn per case; every pair of intervals through the comparisons; all 256 '
@@ -42,14 +45,16 @@ LEVEL_TEXT = ('Machine-checked Coq theorems over all integers and all windows: F
               'flag values, extended to arbitrary bit sets) and is an involution exactly under the guard tie_ok (iff theorem; the complement '
               'is open finding F31, where only the order of same-start locations of unstranded features changes); every LocationTuple '
               'produced by constructor, setter, slice or rc over arbitrary operation histories is non-empty, single-stranded and ordered '
-              '5\'->3\'; <,<=,>,>= are the lexicographic order on ranges with trichotomy, overlaps is range intersection, range and '
+              '5\'->3\'; <,<=,>,>= are the lexicographic order on ranges with trichotomy, overlaps is range intersection, FeatureList.sort() is a '
+              'permutation ordered by that order (stable insertion sort, fixpoint on ordered lists), range and '
               'loc_range are (least start, greatest stop). The hand-written model is tied to sugar by differential testing on every run '
               '(exhaustive small box, random large coordinates, state-independence histories).')
 LEVEL_NOTE = ('Trusted: Coq kernel/vm_compute, tools/gen_data.py (flag values), the correspondence harness, CPython sorted/enum. Modelled rather '
               'than verified: the functions of sugar/core/fts.py listed in MODELLED_FUNCS (every statement of them is executed in the quick '
               'tier; no unreachable lines). Proved for all inputs: every clause of the property except the involution outside tie_ok (refuted: '
               'C08_mirror_involutive_refuted, characterised: C08_mirror_involutive_iff, C08_tie_region_iff). Tested only (not expressible in '
-              'the pure model): independence from shared Location objects / earlier calls (history stream), the TypeError paths of '
+              'the pure model): independence from shared Location objects / earlier calls (history stream), preservation of None-valued metadata and == equality (Meta copying), agreement of sorted()/sort() '
+              'with the modelled stable sort, the BioSeq.sl(update_fts) cross-check, the seqid branch of Feature.__lt__, the TypeError paths of '
               'constructors and comparisons, Feature.overlaps/__len__/loc delegation, the start=/stop=/strand= keyword form and the '
               'tuple-conversion form of the constructors, CPython int/enum behaviour. Identity for an unbounded window is proved for '
               '|x| < 2^62. All theorems closed under the global context.')
@@ -81,6 +86,8 @@ def _pop(o):
         return {'_op': 'qslice', 'a': o[1], 'b': o[2], 'r': o[3], 'L': o[4]}
     if o[0] == 'qcmp':
         return {'_op': 'qcmp', 'i': o[1], 'j': o[2]}
+    if o[0] == 'sort':
+        return {'_op': 'sort', 'rev': bool(o[1])}
     return {'_op': 'setlocs', 'i': o[1], 'locs': [_pl(r) for r in o[2]]}
 
 
@@ -115,6 +122,8 @@ def _uop(o):
         return ['qslice', o['a'], o['b'], o['r'], o['L']]
     if k == 'qcmp':
         return ['qcmp', abs(o['i']), abs(o['j'])]
+    if k == 'sort':
+        return ['sort', bool(o['rev'])]
     return ['setlocs', abs(o['i']), [list(_t(r)) for r in o['locs']]]
 
 
@@ -178,6 +187,8 @@ def _op(o):
         return '(OQSlice %s %s %s %s)' % (coq_opt(o[1], coq_z), coq_opt(o[2], coq_z), coq_z(o[3]), coq_opt(o[4], coq_z))
     if k == 'qcmp':
         return '(OQCmp %s %s)' % (coq_nat(o[1]), coq_nat(o[2]))
+    if k == 'sort':
+        return '(OSort %s)' % ('true' if o[1] else 'false')
     raise ValueError(o)
 
 
@@ -198,12 +209,58 @@ def split_model(case, m):
 
 
 # ----------------------------------------------------------------------------- implementation driver
+class MetadataNotPreserved(Exception):
+    """the metadata of a feature / location is not what was attached to it (keys with value None count)"""
+
+
+class EqualityDiffers(Exception):
+    """two feature lists that render identically (coordinates, strands, defects, tags) are not == """
+
+
+class SortInconsistentWithComparison(Exception):
+    """FeatureList.sort() / sorted() disagree with each other or with LocationTuple <, <=, >, >= on neighbours"""
+
+
+class SeqSliceDiffers(Exception):
+    """seq.sl(update_fts=True)[minus-strand Location].fts != fts.slice(a, b, rel=a).rc(b - a)"""
+
+
+def _loc_meta(m):
+    """metadata attached to a location with tag m: odd tags also carry a key explicitly set to None after construction"""
+    d = {'tag': m} if m else {}
+    if m % 2 == 1:
+        d['phase'] = None
+    return d
+
+
+def _ft_meta(fm, typ='gene'):
+    d = {'tag': fm}
+    if typ is not None:
+        d['type'] = typ
+    if fm % 2 == 1:
+        d['name'] = None
+    if fm % 3 == 0:
+        d['x'] = None
+    return d
+
+
 def _mkloc(r):
     from sugar.core.fts import Location
     a, b, s, d, m = r
     if d == 0 and m == 0 and s == '+' and (a + b) % 2 == 0:
         return Location(a, b)                      # defaults
-    return Location(a, b, s, d, meta=({'tag': m} if m else None))
+    loc = Location(a, b, s, d, meta=({'tag': m} if m else None))
+    if m % 2 == 1:
+        loc.meta.phase = None                      # assigned after construction
+    return loc
+
+
+def _ft_none(ft, fm):
+    if fm % 2 == 1:
+        ft.name = None                             # attribute access
+    if fm % 3 == 0:
+        ft.meta['x'] = None                        # item access
+    return ft
 
 
 def _mkft(f):
@@ -211,14 +268,17 @@ def _mkft(f):
     locs = f['locs']
     if f.get('kw') and len(locs) == 1 and locs[0][3] == 0 and locs[0][4] == 0:
         a, b, s = locs[0][:3]
-        return Feature('gene', start=a, stop=b, strand=s, meta={'tag': f['m']})
-    return Feature('gene', locs=[_mkloc(r) for r in locs], meta={'tag': f['m']})
+        return _ft_none(Feature('gene', start=a, stop=b, strand=s, meta={'tag': f['m']}), f['m'])
+    return _ft_none(Feature('gene', locs=[_mkloc(r) for r in locs], meta={'tag': f['m']}), f['m'])
 
 
 def _vloc(l):
     from sugar.core.fts import Strand, Defect
     assert isinstance(l.strand, Strand) and isinstance(l.defect, Defect)
-    return [l.start, l.stop, str(l.strand.value), int(l.defect), l.meta.get('tag', 0)]
+    m = l.meta.get('tag', 0)
+    _need(isinstance(m, int) and dict(l.meta) == _loc_meta(m), MetadataNotPreserved,
+          'location %r: metadata %r, expected %r' % (l, dict(l.meta), _loc_meta(m) if isinstance(m, int) else None))
+    return [l.start, l.stop, str(l.strand.value), int(l.defect), m]
 
 
 def _vft(ft):
@@ -227,7 +287,10 @@ def _vft(ft):
     assert ft.loc is ft.locs[0]
     lr = ft.locs.range
     assert len(ft) == lr[1] - lr[0]
-    return [[_vloc(l) for l in ft.locs], ft.meta.get('tag')]
+    fm = ft.meta.get('tag')
+    _need(isinstance(fm, int) and dict(ft.meta) == _ft_meta(fm), MetadataNotPreserved,
+          'feature metadata %r, expected %r' % (dict(ft.meta), _ft_meta(fm) if isinstance(fm, int) else None))
+    return [[_vloc(l) for l in ft.locs], fm]
 
 
 class RetainedLocationTupleChanged(Exception):
@@ -258,7 +321,7 @@ def _build(case):
     for f in case['fts']:
         if f.get('share') is not None:
             # the usual way to derive one feature from another: the LocationTuple (and its Location objects) is shared
-            objs.append(Feature('gene', locs=objs[f['share']].locs, meta={'tag': f['m']}))
+            objs.append(_ft_none(Feature('gene', locs=objs[f['share']].locs, meta={'tag': f['m']}), f['m']))
         else:
             objs.append(_mkft(f))
     return FeatureList(objs)
@@ -284,10 +347,14 @@ def _impl_api(v, raws):
     if v == 3:
         t = LocationTuple([_mkloc(r) for r in raws])
         ft = Feature('gene', locs=t)
+        # Feature.__lt__: delegates to the LocationTuple, compares seqids first when they differ, rejects other types
+        assert (ft < t) is False and _exc_name(lambda: ft < 5) == 'TypeError'
+        fa, fb = Feature('gene', locs=t, meta={'seqid': 'a'}), Feature('gene', locs=t, meta={'seqid': 'b'})
+        assert (fa < fb) is True and (fb < fa) is False and (fa < Feature('gene', locs=t, meta={'seqid': 'a'})) is False
         return [_exc_name(lambda: t < 5), _exc_name(lambda: t <= 'x'), _exc_name(lambda: t > None), _exc_name(lambda: t >= (1, 2)),
                 _exc_name(lambda: t.overlaps((0, 1))), _exc_name(lambda: ft.overlaps(5)), ft.overlaps(Feature(locs=t)), ft.overlaps(t)]
     ft = Feature(locs=[_mkloc(r) for r in raws])
-    assert ft.type is None and len(ft.meta) == 0
+    assert ft.type is None and len(ft.meta) == 0 and ft == Feature(locs=[_mkloc(r) for r in raws])
     return [_vloc(l) for l in ft.locs]
 
 
@@ -312,7 +379,13 @@ def impl(case):
         assert r is fts
         st1 = [_vft(f) for f in fts]
         fts.rc(seqlen=case['L'])
-        return [st, st1, [_vft(f) for f in fts]]
+        st2 = [_vft(f) for f in fts]
+        fresh = _build(case)
+        _need(fresh == _build(case), EqualityDiffers, 'two builds of the same case')
+        if st2 == st:
+            _need(fts == fresh and all(a.locs == b.locs and a.meta == b.meta for a, b in zip(fts, fresh)), EqualityDiffers,
+                  'rc(L).rc(L) renders like the original but is not == to it')
+        return [st, st1, st2]
     # history: every LocationTuple ever handed out is a value and must keep its rendering; the state is recorded after
     # each operation; queries are repeated and must not depend on what happened to earlier results
     held, log = [], []
@@ -356,10 +429,31 @@ def impl(case):
             if o[4] is not None:
                 q.rc(seqlen=o[4])                  # mutate the RESULT in place
                 v = [v, [_vft(f) for f in q]]
+            if o[4] is None and v == before:
+                _need(q == fts and fts == q, EqualityDiffers, 'slice result renders like the operand but is not == to it')
+            if (o[4] is not None and o[1] is not None and o[2] is not None and 0 <= o[1] < o[2] <= 400
+                    and o[3] == o[1] and o[4] == o[2] - o[1]):
+                # the same thing through BioSeq: cut out the window on the minus strand with update_fts
+                from sugar import BioSeq
+                from sugar.core.fts import Location
+                seq = BioSeq('A' * o[2])
+                seq.fts = fts
+                sub = seq.sl(update_fts=True)[Location(o[1], o[2], '-')]
+                _need(len(sub) == o[2] - o[1] and [_vft(f) for f in sub.fts] == v[1], SeqSliceDiffers,
+                      '%r vs %r' % ([_vft(f) for f in sub.fts], v[1]))
             _need(state() == before, OperandChanged, 'operand changed through the result of slice')
             _need([_vft(f) for f in do_slice(o)] == (v[0] if o[4] is not None else v), RepeatedCallDiffers, 'slice')
             log.append(v)
             continue
+        elif o[0] == 'sort':
+            ids = [id(f) for f in (sorted(fts, reverse=True) if o[1] else sorted(fts))]
+            r = fts.sort(reverse=True) if o[1] else fts.sort()
+            _need(r is fts and [id(f) for f in fts] == ids, SortInconsistentWithComparison, 'sort() vs sorted()')
+            for x, y in zip(fts, fts[1:]):
+                if o[1]:
+                    x, y = y, x
+                _need(x.locs <= y.locs and y.locs >= x.locs and not (y.locs < x.locs) and not (x.locs > y.locs) and not (y < x),
+                      SortInconsistentWithComparison, '%r before %r' % (x.locs.range, y.locs.range))
         elif o[0] == 'qcmp':
             if o[1] < len(fts) and o[2] < len(fts):
                 v = _vcmp(fts[o[1]].locs, fts[o[2]].locs)
@@ -477,6 +571,9 @@ def _spec_hist(case, got):
         elif o[0] == 'sharelocs':
             if o[1] < len(st) and o[2] < len(st):
                 st = [[[list(r) for r in st[o[2]][0]], fm] if i == o[1] else [locs, fm] for i, (locs, fm) in enumerate(st)]
+        elif o[0] == 'sort':
+            # order of (range start, range stop), ties in their previous order
+            st = sorted(st, key=lambda f: (min(l[0] for l in f[0]), max(l[1] for l in f[0])), reverse=o[1])
         elif o[0] == 'qslice':
             q = _o_slice(st, o[1], o[2], o[3])
             log.append(('state', q) if o[4] is None else ('states', [q, [[_o_mirror(locs, o[4]), fm] for locs, fm in q]]))
@@ -730,8 +827,10 @@ def _rand_op(rng, coord, nfts):
         return ['slice', a, b, rel]
     if r < 0.75:
         return ['rc', rng.choice([0, 10, coord(), 100])]
-    if r < 0.87:
+    if r < 0.84:
         return ['ftrc', rng.randrange(nfts + 1), rng.choice([0, 7, coord()])]
+    if r < 0.9:
+        return ['sort', rng.random() < 0.3]
     return ['setlocs', rng.randrange(nfts + 1), _rand_locs(rng, coord, valid=rng.random() < 0.85)]
 
 
@@ -758,9 +857,17 @@ def _indep_case(rng):
         r = rng.random()
         if r < 0.2:
             ops += [['qslice', w1[0], w1[1], w1[2], None], ['qslice', w2[0], w2[1], w2[2], None], ['qslice', w1[0], w1[1], w1[2], None]]
-        elif r < 0.35:
+        elif r < 0.3:
             w = win()
             ops.append(['qslice', w[0], w[1], w[2], rng.choice([L, 0, 7])])
+        elif r < 0.36:
+            a = rng.randint(0, 8)
+            b = a + rng.choice([1, 3, 6, 12])
+            ops.append(['qslice', a, b, a, b - a])        # also run as seq.sl(update_fts=True)[Location(a, b, '-')]
+        elif r < 0.42:
+            ops.append(['qslice', None, None, 0, None])   # identity window: result must be == operand
+        elif r < 0.46:
+            ops.append(['sort', rng.random() < 0.3])
         elif r < 0.5:
             ops.append(['rc', L])
         elif r < 0.65:
@@ -774,6 +881,27 @@ def _indep_case(rng):
         else:
             w = win()
             ops.append(['slice', w[0], w[1], w[2]])
+    return {'_k': 'h', 'fts': fts, 'ops': ops}
+
+
+def _sort_case(rng):
+    """default ordering of features vs the order of their covered ranges: multi-location features on both strands,
+    nested / contained locations, equal ranges (ties keep their order), reverse=True"""
+    pool = [[(0, 10), (50, 60)], [(20, 30)], [(5, 8), (40, 50)], [(5, 20)], [(1, 9), (3, 6)], [(1, 9)], [(3, 6), (1, 9)],
+            [(0, 60)], [(0, 10)], [(2, 4), (6, 8), (10, 12)], [(2, 12)], [(5, 50), (5, 20)], [(50, 60), (0, 10), (20, 30)]]
+    off = rng.choice([0, 0, 0, -7, 10 ** 6, 2 ** 60])
+    fts = []
+    for i in range(rng.choice([2, 3, 3, 4, 5])):
+        ivs = list(rng.choice(pool)) if rng.random() < 0.8 else [(a, a + rng.randint(1, 9)) for a in [rng.randint(0, 12) for _ in range(rng.randint(1, 3))]]
+        rng.shuffle(ivs)
+        s = rng.choice('+--.?' if len(ivs) > 1 else STRANDS)
+        fts.append({'locs': [[a + off, b + off, s, _rand_defect(rng) if rng.random() < 0.3 else 0, rng.choice([0, 1, 2])] for a, b in ivs],
+                    'm': 30 + i, 'kw': False, 'share': None})
+    ops = [['sort', rng.random() < 0.3]]
+    for _ in range(rng.choice([0, 1, 2])):
+        ops.append(rng.choice([['rc', 60 + off], ['sort', rng.random() < 0.5], ['qcmp', rng.randrange(len(fts)), rng.randrange(len(fts))],
+                               ['ftrc', rng.randrange(len(fts)), 60 + off], ['qslice', None, None, 0, None], ['slice', 3 + off, 45 + off, off]]))
+        ops.append(['sort', rng.random() < 0.3])
     return {'_k': 'h', 'fts': fts, 'ops': ops}
 
 
@@ -827,6 +955,9 @@ def gen_cases(rng, tier):
             if v == 2:
                 locs = [r[:4] + [0] for r in locs]
             cases.append({'_k': 'api', 'v': v, 't': locs})
+    # default ordering of features (FeatureList.sort / sorted) against the order of the covered ranges
+    for _ in range(2500 if thorough else 300):
+        cases.append(_sort_case(rng))
     # state-independence stream: shared Location objects, repeated / reordered queries, mutation of results and operands
     for _ in range(4000 if thorough else 450):
         cases.append(_indep_case(rng))
